@@ -28,6 +28,7 @@ func init() {
 	pure.Register("C14", "withKeys", c14Keys)
 	pure.Register("C14", "withMatrix", c14Matrix)
 	pure.Register("C14", "index-set-fixed-after-admission", c14Update)
+	pure.Register("C14", "present-but-empty-forms", c14EmptyForms)
 }
 
 // c14Update: the index set a Job was admitted with is the one its tasks and status slots are
@@ -378,4 +379,78 @@ func contains(l []string, s string) bool {
 		}
 	}
 	return false
+}
+
+
+// c14EmptyForms: every combination of the three forms being absent, present but empty (count 0,
+// keys [], matrix {} or an axis without values) or really given. Whatever admission accepts must
+// expand to the indexes of the one form that is really given - an empty companion is not a form.
+func c14EmptyForms(c *pure.Ctx) {
+	v := newValidator()
+	zero, two := int64(0), int64(2)
+	counts := []struct {
+		name string
+		v    *int64
+		want []string
+	}{{"count:absent", nil, nil}, {"count:0", &zero, nil}, {"count:2", &two, []string{"num:0", "num:1"}}}
+	keys := []struct {
+		name string
+		v    []string
+		want []string
+	}{{"keys:absent", nil, nil}, {"keys:[]", []string{}, nil}, {"keys:[a b]", []string{"a", "b"}, []string{"key:a", "key:b"}}}
+	mats := []struct {
+		name string
+		v    map[string][]string
+		want []string
+	}{{"matrix:absent", nil, nil}, {"matrix:{}", map[string][]string{}, nil}, {"matrix:{x:[]}", map[string][]string{"x": {}}, nil},
+		{"matrix:{x:[1 2]}", map[string][]string{"x": {"1", "2"}}, []string{"x=1", "x=2"}}}
+	render := func(x execution.ParallelIndex) string {
+		switch {
+		case x.IndexNumber != nil:
+			return fmt.Sprintf("num:%d", *x.IndexNumber)
+		case x.IndexKey != "":
+			return "key:" + x.IndexKey
+		}
+		ks := make([]string, 0, len(x.MatrixValues))
+		for k := range x.MatrixValues {
+			ks = append(ks, k)
+		}
+		sort.Strings(ks)
+		var parts []string
+		for _, k := range ks {
+			parts = append(parts, k+"="+x.MatrixValues[k])
+		}
+		return strings.Join(parts, ",")
+	}
+	for _, cn := range counts {
+		for _, ks := range keys {
+			for _, m := range mats {
+				given := 0
+				var want []string
+				for _, w := range [][]string{cn.want, ks.want, m.want} {
+					if w != nil {
+						given++
+						want = w
+					}
+				}
+				desc := fmt.Sprintf("%s %s %s", cn.name, ks.name, m.name)
+				spec := &execution.ParallelismSpec{WithCount: cn.v, WithKeys: ks.v, WithMatrix: m.v, CompletionStrategy: execution.AllSuccessful}
+				if given != 1 {
+					// None or several really given: the property names no requested set for these (an axis
+					// without values, for instance, is admitted and has an empty product: observed, not judged).
+					c.Eval()
+					if accepted(v, spec) {
+						c.Count("admitted-without-exactly-one-form: " + desc)
+					}
+					continue
+				}
+				checkSpec(c, v, desc, spec, want, render, []string{"${task.index_num}"}, func(x execution.ParallelIndex) []string {
+					if x.IndexNumber != nil {
+						return []string{fmt.Sprint(*x.IndexNumber)}
+					}
+					return []string{""}
+				})
+			}
+		}
+	}
 }
